@@ -175,7 +175,7 @@ def check(run, F, tier):
                 mech += 1
                 r1.ok(o.key, o.why)
                 continue
-            le = ledger.get(o.key)
+            le = panics.ledger_match(ledger, o)
             if le is not None and o.status == "open":
                 aud += 1
                 used.add(o.key)
